@@ -288,4 +288,246 @@ theorem crash_protocol (d : Dir) (tmp file : String) (chunks : List String) (hne
     simp only [applyOp, htmp]
     exact get_set_same _ _ _
 
+/-! ### sessions (several entry points, scaled flags, renames) -/
+
+theorem lookup_filter_ne' {β} (d : List (String × β)) (p q : String) (h : q ≠ p) :
+    (d.filter (·.1 != p)).lookup q = d.lookup q := by
+  induction d with
+  | nil => rfl
+  | cons e t ih =>
+    obtain ⟨k, c⟩ := e
+    by_cases hk : k = p
+    · subst hk
+      have hq : (q == k) = false := by simpa using h
+      simp [List.filter, List.lookup, hq, ih]
+    · have hk' : (k != p) = true := by simpa using hk
+      simp only [List.filter, hk', List.lookup]
+      rw [ih]
+
+theorem files_get_set_same (d : Files) (n : String) (v : List String) :
+    (d.set n v).get n = some v := by
+  simp [Files.set, Files.get]
+
+theorem files_get_set_ne (d : Files) (n m : String) (v : List String) (h : m ≠ n) :
+    (d.set n v).get m = d.get m := by
+  have hq : (m == n) = false := by simpa using h
+  simp only [Files.set, Files.get, List.lookup, hq]
+  exact lookup_filter_ne' d n m h
+
+theorem step_best_nonfinite {α} (ge : α → α → Bool) (b : Option α) (fl : Option (List String))
+    (e : Eval α) (h : e.finite = false) : (step ge ⟨b, fl⟩ e).best = b := by
+  simp [step, h]
+
+theorem step_file_nonfinite {α} (ge : α → α → Bool) (b : Option α) (fl : Option (List String))
+    (e : Eval α) (h : e.finite = false) : (step ge ⟨b, fl⟩ e).file = fl := by
+  simp [step, h]
+
+theorem saves_nonfinite {α} (ge : α → α → Bool) (b : Option α) (e : Eval α)
+    (h : e.finite = false) : saves ge b e = false := by
+  simp [saves, h]
+
+theorem step_best_saved {α} (ge : α → α → Bool) (b : Option α) (fl : Option (List String))
+    (e : Eval α) (h : e.finite = true) (hs : ge e.f (b.getD e.f) = true) :
+    (step ge ⟨b, fl⟩ e).best = some e.f := by
+  cases b with
+  | none => simp only [Option.getD] at hs; simp [step, h, hs]
+  | some b => simp only [Option.getD] at hs; simp [step, h, hs]
+
+theorem step_file_saved {α} (ge : α → α → Bool) (b : Option α) (fl : Option (List String))
+    (e : Eval α) (h : e.finite = true) (hs : ge e.f (b.getD e.f) = true) :
+    (step ge ⟨b, fl⟩ e).file = some e.x := by
+  cases b with
+  | none => simp only [Option.getD] at hs; simp [step, h, hs]
+  | some b => simp only [Option.getD] at hs; simp [step, h, hs]
+
+theorem step_best_not_saved {α} (ge : α → α → Bool) (b : Option α) (fl : Option (List String))
+    (e : Eval α) (h : e.finite = true) (hs : ge e.f (b.getD e.f) = false) :
+    (step ge ⟨b, fl⟩ e).best = some (b.getD e.f) := by
+  cases b with
+  | none => simp only [Option.getD] at hs; simp [step, h, hs]
+  | some b => simp only [Option.getD] at hs; simp [step, h, hs]
+
+theorem step_file_not_saved {α} (ge : α → α → Bool) (b : Option α) (fl : Option (List String))
+    (e : Eval α) (h : e.finite = true) (hs : ge e.f (b.getD e.f) = false) :
+    (step ge ⟨b, fl⟩ e).file = fl := by
+  cases b with
+  | none => simp only [Option.getD] at hs; simp [step, h, hs]
+  | some b => simp only [Option.getD] at hs; simp [step, h, hs]
+
+theorem saves_finite {α} (ge : α → α → Bool) (b : Option α) (e : Eval α)
+    (h : e.finite = true) : saves ge b e = ge e.f (b.getD e.f) := by
+  simp [saves, h]
+
+/-- the marker does not depend on what is in the file -/
+theorem step_best_indep {α} (ge : α → α → Bool) (b : Option α) (fl fl' : Option (List String))
+    (e : Eval α) : (step ge ⟨b, fl⟩ e).best = (step ge ⟨b, fl'⟩ e).best := by
+  cases hfin : e.finite with
+  | false => rw [step_best_nonfinite ge b fl e hfin, step_best_nonfinite ge b fl' e hfin]
+  | true =>
+    cases hs : ge e.f (b.getD e.f) with
+    | true => rw [step_best_saved ge b fl e hfin hs, step_best_saved ge b fl' e hfin hs]
+    | false => rw [step_best_not_saved ge b fl e hfin hs, step_best_not_saved ge b fl' e hfin hs]
+
+/-- the single-file machine in terms of `saves` -/
+theorem step_file_eq {α} (ge : α → α → Bool) (b : Option α) (fl : Option (List String))
+    (e : Eval α) : (step ge ⟨b, fl⟩ e).file = if saves ge b e then some e.x else fl := by
+  cases hfin : e.finite with
+  | false => rw [step_file_nonfinite ge b fl e hfin, saves_nonfinite ge b e hfin]; rfl
+  | true =>
+    rw [saves_finite ge b e hfin]
+    cases hs : ge e.f (b.getD e.f) with
+    | true => rw [step_file_saved ge b fl e hfin hs]; rfl
+    | false => rw [step_file_not_saved ge b fl e hfin hs]; rfl
+
+/-- one evaluation of a session, seen from the file of the current name, is one `step` -/
+theorem sstep_eval_as_step {α} (ge : α → α → Bool) (s : Sess α) (e : Eval α) (sc : Bool) :
+    let s' := sstep ge s (.eval e sc)
+    let t := step ge ⟨s.best, s.files.get s.name⟩ e
+    s'.name = s.name ∧ s'.best = t.best ∧ s'.files.get s.name = t.file := by
+  refine ⟨rfl, ?_, ?_⟩
+  · exact step_best_indep ge s.best none _ e
+  · show (if saves ge s.best e then s.files.set s.name e.x else s.files).get s.name = _
+    rw [step_file_eq]
+    cases saves ge s.best e with
+    | true => simp only [↓reduceIte]; exact files_get_set_same _ _ _
+    | false => simp
+
+theorem srun_evals_as_run {α} (ge : α → α → Bool) (l : List (Eval α × Bool)) :
+    ∀ s : Sess α,
+      let s' := srun ge s (l.map fun p => Op.eval p.1 p.2)
+      let t := run ge ⟨s.best, s.files.get s.name⟩ (l.map (·.1))
+      s'.name = s.name ∧ s'.best = t.best ∧ s'.files.get s.name = t.file := by
+  induction l with
+  | nil => intro s; exact ⟨rfl, rfl, rfl⟩
+  | cons p t ih =>
+    intro s
+    obtain ⟨h1, h2, h3⟩ := sstep_eval_as_step ge s p.1 p.2
+    have := ih (sstep ge s (.eval p.1 p.2))
+    simp only [srun, run, List.map_cons, List.foldl_cons] at this ⊢
+    rw [h1, h2, h3] at this
+    exact this
+
+theorem sstep_eval_frame {α} (ge : α → α → Bool) (s : Sess α) (e : Eval α) (sc : Bool)
+    (n : String) (hn : n ≠ s.name) :
+    (sstep ge s (.eval e sc)).files.get n = s.files.get n := by
+  show (if saves ge s.best e then s.files.set s.name e.x else s.files).get n = _
+  cases saves ge s.best e with
+  | true => simp only [↓reduceIte]; exact files_get_set_ne _ _ _ _ hn
+  | false => simp
+
+def SInv {α} (ge : α → α → Bool) (files₀ : Files) (seen : List (String × Eval α))
+    (s : Sess α) : Prop :=
+  ((∀ p ∈ seen, p.2.finite = false) ∧ s.files = files₀ ∧ s.best = none) ∨
+  (∃ p ∈ seen, p.2.finite = true ∧ s.files.get p.1 = some p.2.x ∧ s.best = some p.2.f ∧
+      ∀ q ∈ seen, q.2.finite = true → ge p.2.f q.2.f = true)
+
+theorem sstep_eval_inv {α} (ge : α → α → Bool)
+    (htot : ∀ a b, ge a b = true ∨ ge b a = true)
+    (htr : ∀ a b c, ge a b = true → ge b c = true → ge a c = true)
+    (files₀ : Files) (seen : List (String × Eval α)) (s : Sess α) (e : Eval α) (sc : Bool)
+    (h : SInv ge files₀ seen s) :
+    SInv ge files₀ (seen ++ [(s.name, e)]) (sstep ge s (.eval e sc)) := by
+  have hrefl : ∀ a, ge a a = true := fun a => by rcases htot a a with h | h <;> exact h
+  have hbest : (sstep ge s (.eval e sc)).best = (step ge ⟨s.best, none⟩ e).best := rfl
+  have hfiles : (sstep ge s (.eval e sc)).files
+      = if saves ge s.best e then s.files.set s.name e.x else s.files := rfl
+  cases hfin : e.finite with
+  | false =>
+    have hb : (sstep ge s (.eval e sc)).best = s.best := by
+      rw [hbest]; exact step_best_nonfinite ge _ _ e hfin
+    have hf : (sstep ge s (.eval e sc)).files = s.files := by
+      rw [hfiles, saves_nonfinite ge _ e hfin]; rfl
+    rcases h with ⟨h1, h2, h3⟩ | ⟨p, hp, hpf, hfile, hbst, hall⟩
+    · left
+      refine ⟨?_, by rw [hf]; exact h2, by rw [hb]; exact h3⟩
+      intro q hq
+      rcases List.mem_append.mp hq with hq | hq
+      · exact h1 q hq
+      · simp only [List.mem_singleton] at hq; rw [hq]; exact hfin
+    · right
+      refine ⟨p, List.mem_append_left _ hp, hpf, by rw [hf]; exact hfile, by rw [hb]; exact hbst, ?_⟩
+      intro q hq hqf
+      rcases List.mem_append.mp hq with hq | hq
+      · exact hall q hq hqf
+      · simp only [List.mem_singleton] at hq; rw [hq] at hqf; rw [hfin] at hqf; cases hqf
+  | true =>
+    have hnew : ge e.f (s.best.getD e.f) = true →
+        (sstep ge s (.eval e sc)).best = some e.f ∧
+        (sstep ge s (.eval e sc)).files.get s.name = some e.x := by
+      intro hs
+      refine ⟨by rw [hbest]; exact step_best_saved ge _ _ e hfin hs, ?_⟩
+      rw [hfiles, saves_finite ge _ e hfin, hs]
+      simp only [↓reduceIte]
+      exact files_get_set_same _ _ _
+    rcases h with ⟨h1, _, h3⟩ | ⟨p, hp, hpf, hfile, hbst, hall⟩
+    · have hs : ge e.f (s.best.getD e.f) = true := by rw [h3]; exact hrefl _
+      obtain ⟨hb, hf⟩ := hnew hs
+      right
+      refine ⟨(s.name, e), List.mem_append_right _ (List.mem_singleton.mpr rfl), hfin, hf, hb, ?_⟩
+      intro q hq hqf
+      rcases List.mem_append.mp hq with hq | hq
+      · rw [h1 q hq] at hqf; cases hqf
+      · simp only [List.mem_singleton] at hq; rw [hq]; exact hrefl _
+    · cases hcmp : ge e.f p.2.f with
+      | true =>
+        have hs : ge e.f (s.best.getD e.f) = true := by rw [hbst]; exact hcmp
+        obtain ⟨hb, hf⟩ := hnew hs
+        right
+        refine ⟨(s.name, e), List.mem_append_right _ (List.mem_singleton.mpr rfl), hfin, hf, hb, ?_⟩
+        intro q hq hqf
+        rcases List.mem_append.mp hq with hq | hq
+        · exact htr _ _ _ hcmp (hall q hq hqf)
+        · simp only [List.mem_singleton] at hq; rw [hq]; exact hrefl _
+      | false =>
+        have hs : ge e.f (s.best.getD e.f) = false := by rw [hbst]; exact hcmp
+        have hb : (sstep ge s (.eval e sc)).best = some p.2.f := by
+          rw [hbest, step_best_not_saved ge _ _ e hfin hs, hbst]; rfl
+        have hf : (sstep ge s (.eval e sc)).files = s.files := by
+          rw [hfiles, saves_finite ge _ e hfin, hs]; rfl
+        right
+        refine ⟨p, List.mem_append_left _ hp, hpf, by rw [hf]; exact hfile, hb, ?_⟩
+        intro q hq hqf
+        rcases List.mem_append.mp hq with hq | hq
+        · exact hall q hq hqf
+        · simp only [List.mem_singleton] at hq; rw [hq]
+          rcases htot p.2.f e.f with h | h
+          · exact h
+          · rw [hcmp] at h; cases h
+
+theorem sfold_inv {α} (ge : α → α → Bool)
+    (htot : ∀ a b, ge a b = true ∨ ge b a = true)
+    (htr : ∀ a b c, ge a b = true → ge b c = true → ge a c = true)
+    (files₀ : Files) (ops : List (Op α)) :
+    NoReset ops → ∀ (seen : List (String × Eval α)) (s : Sess α), SInv ge files₀ seen s →
+      SInv ge files₀ (seen ++ namedEvals s.name ops) (ops.foldl (sstep ge) s) := by
+  induction ops with
+  | nil => intro _ seen s hs; simpa [namedEvals] using hs
+  | cons o t ih =>
+    intro hnr seen s hs
+    cases o with
+    | eval e sc =>
+      have := ih hnr (seen ++ [(s.name, e)]) (sstep ge s (.eval e sc))
+        (sstep_eval_inv ge htot htr files₀ seen s e sc hs)
+      have hname : (sstep ge s (.eval e sc)).name = s.name := rfl
+      rw [hname] at this
+      simpa [namedEvals, List.append_assoc] using this
+    | rename n =>
+      have hs' : SInv ge files₀ seen (sstep ge s (.rename n)) := hs
+      have := ih hnr seen (sstep ge s (.rename n)) hs'
+      have hname : (sstep ge s (.rename n)).name = n := rfl
+      rw [hname] at this
+      simpa [namedEvals] using this
+    | reset => exact absurd hnr (by simp [NoReset])
+
+theorem srun_inv {α} (ge : α → α → Bool)
+    (htot : ∀ a b, ge a b = true ∨ ge b a = true)
+    (htr : ∀ a b c, ge a b = true → ge b c = true → ge a c = true)
+    (s₀ : Sess α) (ops : List (Op α)) (hnr : NoReset ops) :
+    SInv ge s₀.files (namedEvals s₀.name ops) (srun ge (sstep ge s₀ .reset) ops) := by
+  have h0 : SInv ge s₀.files [] (sstep ge s₀ .reset) := Or.inl ⟨(fun _ h => nomatch h), rfl, rfl⟩
+  have := sfold_inv ge htot htr s₀.files ops hnr [] (sstep ge s₀ .reset) h0
+  have hname : (sstep ge s₀ (.reset : Op α)).name = s₀.name := rfl
+  rw [hname] at this
+  simpa [srun] using this
+
 end IterFile
